@@ -74,3 +74,14 @@ package ocirequest
 //@   requires req != nil && 0 <= req.Kind && req.Kind <= ReqCatalogList
 //@   modifies nothing
 //@   ensures[error-means-empty] result.2 != nil ==> result.0 == "" && result.1 == ""
+
+// ---------------------------------------------------------------------------
+// C04 / C01: the Content-Range codec. RangeString writes the half-open Go
+// range [start, end) in the inclusive wire form; ParseRange reads it back.
+// The round trip is a postcondition of RangeString over the real body of
+// ParseRange (executed symbolically as a specification function; itoa/atoi
+// are the decimal printer and parser as mutually inverse uninterpreted
+// functions).
+//@ func RangeString
+//@   pure
+//@   ensures[round-trip] 0 <= start && start <= end ==> ParseRange(result).0 == start && ParseRange(result).1 == end && ParseRange(result).2
